@@ -47,6 +47,7 @@ def configs(tier, seed):
     for P, n in ((16, 20), (30, 40)):
         pre = {"P": P, "k": 3, "seed": 0, "peak": 0.3, "noise": 0.25}
         out.append({"name": "seq-modeb-B-n%d-P%d+3" % (n, P), "algo": "SequOOL", "part": "B", "d": 1, "T": P + 3, "params": {"n": n}, "prefix": pre, "cost": P})
+    out.append({"name": "hmax-sweep-n10..%d" % (400 if q == 0 else 3000), "mode": "hmax", "top": 400 if q == 0 else 3000, "algo": "SequOOL", "part": "B", "d": 1, "T": 0, "params": {}, "cost": 5})
     out.append({"name": "twin-seq", "algo": "SequOOL", "part": "B", "d": 1, "T": 3, "params": {"n": 10}, "twin": True, "expect_fail": "twin"})
     return out
 
@@ -151,7 +152,29 @@ class SeqRef(Observer):
                 self.rec_point = lp
 
 
+def run_hmax(ctx, cfg):
+    """h_max = floor(n / H_n) for every budget of a range (exact rationals; concrete enumeration, the
+    schedule arithmetic does not depend on rewards)"""
+    from harness.runlevel import algo_class
+    from harness.common import partition_class
+    cls = algo_class("SequOOL")
+    bad = []
+    H = Fraction(0)
+    for i in range(1, 10):
+        H += Fraction(1, i)
+    for n in range(10, cfg["top"] + 1):
+        H += Fraction(1, n)
+        want = int(Fraction(n) / H)
+        a = cls(n=n, domain=[[0.0, 1.0]], partition=partition_class("B"))
+        if a.h_max != want:
+            bad.append((n, a.h_max, want))
+    ctx.check("seq:h_max", not bad, "h_max != floor(n/H_n) for budgets %s (n, got, expected)" % (bad[:6],))
+    ctx.count("sym:hmax_sweep")
+
+
 def run(ctx, cfg):
+    if cfg.get("mode") == "hmax":
+        return run_hmax(ctx, cfg)
     ob = SeqRef()
     algo, dom, rs, lp = drive(ctx, cfg, [ob], last_point=False)
     if cfg.get("twin"):
